@@ -840,6 +840,9 @@ def op_alphabet(shape, level="full"):
     # a grouping rule with fewer fields than the role definition: alone, and in a batch before / after a valid rule
     short = G[0][:-1]
     ops += [("add", "g", short), ("addmany", "g", [G[1], short]), ("addmany", "g", [short, G[2]])]
+    # grouping rules LONGER than the role definition: they differ only beyond it, so they share one link
+    lx, ly = G[0] + ["x"], G[0] + ["y"]
+    ops += [("add", "g", lx), ("add", "g", ly), ("remove", "g", lx), ("remove", "g", ly), ("addmany", "g", [lx, ly]), ("removemany", "g", [lx, ly]), ("removemany", "g", [lx])]
     ops += [("delete_user", "alice"), ("delete_role", "admin"), ("delete_roles_for_user", "alice"), ("delete_role_for_user", "alice", "admin") if shape != "dom" else ("delete_roles_for_user_in_domain", "alice", "admin", "d1")]
     if shape != "dom":
         ops += [("add_role_for_user", "bob", "root")]
